@@ -147,11 +147,74 @@ def r01_6(chk, facts):
                                      {'function': fn['q']}, fn['q'])
     chk.require(n >= 10, 'R01.6: only %d data()/size() pairs found' % n)
 
+# member functions that only the pretty printer has: layout, no value text
+LAYOUT_ONLY = {'begin_scalar_value', 'end_value', 'break_line', 'new_line', 'write_indent', 'write_indent1', 'indent', 'unindent'}
+PUNCT = (0x2c, 0x3a, 0x20, 0x0a, 0x0d, 0x5b, 0x5d, 0x7b, 0x7d)
+
+def value_tokens(facts, cls, name, chartype):
+    """The value text a visit_* / helper of one encoder class writes: (switch context, callee, arguments) of every call that writes through
+    the sink or calls a member helper, layout calls and punctuation excluded."""
+    fns = [f for f in U.functions(facts, cls=cls, name=name) if f.get('body') is not None and f['file'].endswith('json_encoder.hpp') and
+           ('<%s,' % chartype in (f.get('cls') or '') or '<%s>' % chartype in (f.get('cls') or ''))]
+    if not fns: return None, None
+    fn = fns[0]
+    g = C.CFG(fn['body'])
+    out = {}
+    for nd in g.rpo:
+        if nd.kind not in ('stmt', 'cond', 'return') or not isinstance(nd.ast, dict): continue
+        for c in A.calls_in(nd.ast):
+            nm = A.callee_name(c)
+            uses_sink = any(A.ref_name(a) == 'sink_' for a in c.get('args') or []) or A.ref_name(c.get('obj')) == 'sink_'
+            o = A.strip(c.get('obj'), casts=True) if c.get('obj') is not None else None
+            member = c.get('k') == 'CXXMemberCallExpr' and o is not None and o.get('k') == 'CXXThisExpr'
+            if not uses_sink and not member: continue
+            if member and nm in LAYOUT_ONLY: continue
+            if any('_str_' in A.text(a) for a in c.get('args') or []): continue       # comma/colon strings of the pretty printer
+            if nm in ('push_back', 'flush'):
+                v = [A.const(a) for a in c.get('args') or []]
+                if not v or v[0] in PUNCT: continue
+            ctx = []
+            for a, lab, e in g.guards(nd):
+                if e.src is not None and e.src.kind == 'switch' and isinstance(lab, tuple):
+                    ctx.append('%s=%s' % (A.text(e.src.ast)[:40], lab[1] if lab[0] == 'case' else 'default'))
+                elif lab in (True, False):
+                    t = A.text(a)
+                    # conditions on the value, its tag and the options select the text; conditions on the container stack / layout do not
+                    if any(w in t for w in ('stack_', 'column_', 'line_split', 'indent', 'ec')): continue
+                    ctx.append('%s%s' % ('' if lab else '!', t[:60]))
+            args = []
+            for a in c.get('args') or []:
+                v = A.const(a)
+                args.append(str(v) if v is not None else A.text(a)[:40])
+            out.setdefault((tuple(sorted(ctx)), nm, tuple(args)), c.get('l'))
+    return fn, out
+
+def r01_3(chk, facts, tier):
+    chk.rule('R01.3', 'sibling agreement: for every value event and value helper, the pretty and the compact JSON encoder write the same value text '
+                      '(same writer calls with the same arguments under the same option/tag cases); only layout differs', floor=10)
+    names = ('visit_null', 'visit_bool', 'visit_int64', 'visit_uint64', 'visit_double', 'visit_string', 'visit_byte_string', 'visit_key',
+             'write_bignum_value', 'write_string')
+    for ct in (('char', 'wchar_t') if tier == 'thorough' else ('char',)):
+        for name in names:
+            fa, a = value_tokens(facts, 'basic_json_encoder', name, ct)
+            fb, b = value_tokens(facts, 'basic_compact_json_encoder', name, ct)
+            chk.require(a is not None and b is not None, 'R01.3: %s<%s> missing in one of the two encoders' % (name, ct))
+            chk.analysed(fa); chk.analysed(fb)
+            site = 'include/jsoncons/json_encoder.hpp %s %s' % (name, ct)
+            da = sorted(set(a) - set(b)); db = sorted(set(b) - set(a))
+            if not da and not db: chk.ok('R01.3', site, {'value_writes': len(a)})
+            else:
+                def show(k): return '%s(%s)%s' % (k[1], ', '.join(k[2]), (' under ' + ' & '.join(k[0])) if k[0] else '')
+                line = (a[da[0]] if da else b[db[0]])
+                chk.fail('R01.3', site, fa['file'], line, '%s: the two JSON encoders write different value text: only basic_json_encoder: [%s]; only basic_compact_json_encoder: [%s]' % (
+                    name, '; '.join(show(k) for k in da[:3]), '; '.join(show(k) for k in db[:3])), {'only_pretty': [show(k) for k in da], 'only_compact': [show(k) for k in db]}, fa['q'])
+
 def run(chk, tier, only_rule=None):
     chk.explanation = EXPLANATION
     chk.not_decided = NOT_DECIDED
     facts = F.load(['core'], tier)
     chk.units = facts.units
     r01_1(chk, facts)
+    r01_3(chk, facts, tier)
     r01_6(chk, facts)
     c03.r03_1_2(chk, facts)
